@@ -528,6 +528,18 @@ func main() {
 	for i, g := range schema.Grid(schema.GridOptions{FloatKeyContainers: *floatKeys}) {
 		addPlain(newSchemaCase(fmt.Sprintf("grid%d", i), g), gridSets)
 	}
+	// the same shapes over enums of an imported file: two-file packages, generated separately; private
+	// definitions cannot be named from another package, so those option sets do not apply
+	var impSets []pkgbuild.Options
+	for _, o := range gridSets {
+		if !o.Private {
+			impSets = append(impSets, o)
+		}
+	}
+	if *tier == "quick" {
+		impSets = []pkgbuild.Options{pkgbuild.OptionsFromBits(0), pkgbuild.OptionsFromBits(23)} // none; every option but private
+	}
+	addPlain(newSchemaCase("gridimp", schema.GridImported(schema.GridOptions{FloatKeyContainers: *floatKeys})), impSets)
 	for i := 0; i < nRandom; i++ {
 		c := gcfg
 		if i%3 == 1 {
